@@ -109,8 +109,12 @@ def multiple_mahalanobis(effect, covariance):
     if covariance.shape[0] != covariance.shape[1]:
         raise ValueError('Inconsistant shape for covariance')
 
-    # transpose and make contuguous for the sake of speed
-    Xt, Kt = np.ascontiguousarray(effect.T), np.ascontiguousarray(covariance.T)
+    # transpose and make contuguous for the sake of speed; the covariances
+    # are inverted in place below, so always work on a copy (for a
+    # Fortran-ordered `covariance`, `covariance.T` is already contiguous and
+    # ascontiguousarray would hand back the caller's memory)
+    Xt = np.ascontiguousarray(effect.T)
+    Kt = np.array(covariance.T, order='C')
 
     # compute the inverse of the covariances
     Kt = multiple_fast_inv(Kt)
